@@ -147,7 +147,23 @@ func execBody(body func() (string, string)) (sig, detail string, steps int) {
 	if res.Capped {
 		return "livelock-or-step-cap", fmt.Sprint("steps ", res.Steps), steps
 	}
+	if res.MainBlocked {
+		// nothing was enabled any more and no timer pending while the scenario was still inside a call
+		return "call-never-returned", "the scenario's main task is blocked for good in " + res.MainOp + leakedStr(res.Leaked), steps
+	}
 	return
+}
+
+func leakedStr(ls []vsched.Leak) string {
+	s := ""
+	for i, l := range ls {
+		if i == 6 {
+			s += " ..."
+			break
+		}
+		s += fmt.Sprintf("; task %s blocked in %s on object %d", l.Name, l.Op, l.Obj)
+	}
+	return s
 }
 
 var c10Resent int // retransmissions observed in the last run (outcome evidence)
